@@ -7,8 +7,11 @@ PROP = {'n_quick': 200,
          '(boundary + random values printed and parsed back; near-miss strings: sign, leading zeros, case, whitespace, 0x, empty, wrong length, bad and '
          'non-ASCII characters, overflow, other byte order, out-of-range tweaks; every sighash name and hex form); serde: structured transactions, single '
          'inputs/outputs, headers (proof / dynafed with null, compact, full params), blocks, params, confidential values, outpoints, lock times, secrets, '
-         'blinding factors, scripts, hash newtypes, addresses and sighash types serialized to JSON text and CBOR bytes and read back; LockTime values '
-         'reachable through the derived Deserialize; 37 hand-made malformed trees; distinct = distinct case text; non-trivial = value not the type\'s '
+         'blinding factors, scripts, hash newtypes, addresses and sighash types serialized to JSON text and CBOR bytes and read back; LockTime JSON on both '
+         'sides of the threshold through Deserialize; 37 hand-made malformed trees; EXPLORATION IN SUPPORT (no Coq model: the model side echoes the fixed '
+         'token "pset-serde", only the predicate deserialize(serialize(p)) == p is evaluated, on the implementation): real PSETs from the C07 generators '
+         '(repository vectors, every optional field alone, tap-tree shapes, random field subsets) and each of their Global / Input / Output maps through '
+         'JSON text, serde_json::Value and CBOR; distinct = distinct case text; non-trivial = value not the type\'s '
          'default',
  'trusted': ['serde_json 1.0.151 / serde_cbor 0.8.2 / serde 1.0.229 are modelled, not verified: json_view / cbor_view transcribe what their serializers put on the '
              'wire and the node kinds their deserializers hand to visitors (checked every run byte-for-byte: the model renders the exact JSON text and CBOR bytes)',
@@ -20,7 +23,8 @@ PROP = {'n_quick': 200,
              'strings are byte lists; the harness only feeds valid UTF-8'],
  'assumes': ['Address and the PSET base64 form: their Display/FromStr round trips are C06 / C07; here Address serde is proved relative to that round trip '
              '(C20_serde_string_forms) and exercised on generated addresses',
-             'the derived PartiallySignedTransaction serde (serde_derive, serde(flatten)) is not covered',
+             'the derived PartiallySignedTransaction / pset::Global / Input / Output serde (serde_derive, serde(flatten), serde_utils map encodings) has no '
+             'theorem: it is covered by correspondence only (exploration in support, `ps` cases), which found F28, F29, F30',
              'values reach the model through their consensus encoding, so serde correspondence runs on consensus-canonical values (the theorems do not need '
              'canonicity); deserialization of trees that no Serialize impl produces is compared on 37 fixed probes only',
              'serde_derive / serde_cbor also accept integer variant indices and single-entry maps for enums; de_locktime does not model those inputs']}
@@ -32,15 +36,16 @@ TEXT = {'text': 'Kernel-checked theorems. Text forms: parse_T (print_T x) = Ok x
          '{:#x}; trim_start_matches("0x") + from_str_radix), and the generic numeral lemma for every radix 2..16 and width. Serde: for Transaction, TxIn, TxOut, '
          'both witnesses, AssetIssuance, OutPoint, Block, BlockHeader, ExtData, Params, confidential Value/Asset/Nonce, TxOutSecrets, LockTime, hash newtypes, '
          'midstate wrappers, Script, blinding factors and the Display-string types: de_T true (json_view (ser_T true x)) = Ok x and de_T false (cbor_view '
-         '(ser_T false x)) = Ok x under exactly the invariants of the Rust type (and, by a bridge lemma, under the consensus codecs\' wf). One finding (F17): '
-         'LockTime values obtained through the derived Deserialize can violate the threshold invariant and then do not survive Display/FromStr; the refutation, '
-         'the exact failing class and the restricted full statement are theorems. Every run the model reproduces the crate\'s JSON text and CBOR bytes '
+         '(ser_T false x)) = Ok x under exactly the invariants of the Rust type (and, by a bridge lemma, under the consensus codecs\' wf). Finding F17 (Height/Time derived '
+         'Deserialize skipped the threshold check) is repaired in the library (4dc51c6); the theorems now state that every LockTime Deserialize returns '
+         'satisfies the invariant and survives Display/FromStr, and that the invariant is exactly the class on which the text round trip holds. The derived '
+         'PSET serde is explored by correspondence only and does not round-trip (findings F28-F30). Every run the model reproduces the crate\'s JSON text and CBOR bytes '
          'byte-for-byte and its accept/reject/value/error-class on thousands of near-miss strings.',
  'design_ref': 'DESIGN.md section 6, C20 (notes/C20.md)',
  'note': 'Trusted: Coq kernel; hand-written Gallina transcriptions of the Display/FromStr/Serialize/Deserialize impls and of the dependency leaves (listed in '
          'evidence.trusted_base), tied to the code by translator tables (all sighash strings, enum values, prefixes, direction flags, field-name lists, tags, '
-         'byte-swap flags, macro shapes) and per-run correspondence; serde_json/serde_cbor behaviour is modelled by two views. Not covered: the derived '
-         'PartiallySignedTransaction serde; the PSET base64 text form (C07); Address text round trip (C06, used as a premise). F15 (SchnorrSighashType::Reserved '
+         'byte-swap flags, macro shapes) and per-run correspondence; serde_json/serde_cbor behaviour is modelled by two views. By correspondence only (exploration in support, no theorem): the derived '
+         'PartiallySignedTransaction serde; not covered: the PSET base64 text form (C07); Address text round trip (C06, used as a premise). F15 (SchnorrSighashType::Reserved '
          'inside a SchnorrSig) concerns to_vec/from_slice, not these forms: as a string and in serde Reserved round-trips (C20_text_reserved_sighash).',
  'technique': 'Coq proof (numeral lemmas by induction on fuel, hex by byte enumeration, finite sighash tables by kernel computation over the regenerated lists, '
               'serde structs by symbolic evaluation of the visitor fold) + per-run model/implementation correspondence'}
